@@ -707,8 +707,11 @@ class LabReplay:
                             self.report("C10", "get_concentration", dict(key, units=text, kind=KIND[s]),
                                         f"{out.call}: {n}.get_concentration({s}, {text!r}) = {got!r}, contents give {e!r}", ev, ctx["pre_key"])
                             return
+            if (isinstance(o, pp.Container) or i == 0) and not self.check_table(ctx, n, i, c, mc, key):
+                return
         if isinstance(o, pp.Plate):
             self.check_plate_observers(ctx, n, o, mcs, key)
+            self.check_plate_dataframes(ctx, n, o, mcs, key)
         # the set of substances of every single well / container, asked AFTER the plate-level observers
         for i, c in enumerate(wells):
             got = set(c.get_substances())
@@ -717,6 +720,98 @@ class LabReplay:
             if not (present <= got <= keys):
                 self.report("C10", "container_get_substances", key,
                             f"{out.call}: {n} well {i + 1}: get_substances() = {sorted(x.name for x in got)}, contents hold {sorted(x.name for x in keys)}", ev, ctx["pre_key"])
+                return
+
+    PREFIX = {"": 1.0, "m": 1e-3, "u": 1e-6, "n": 1e-9, "k": 1e3}
+    have_styler = None
+
+    def check_table(self, ctx, n, i, c, mc, key):
+        """has_liquid() and the table of a container (dataframe(), also behind repr and the HTML view): every cell, read back
+        in its own human-readable unit, states the measure of that substance (and the totals) to the displayed precision."""
+        ev, out, inst, pp = ctx["ev"], ctx["out"], self.inst, self.pp
+        prec = pp.config.precisions
+        liquids = {s for s in mc if KIND[s] == "liquid"}
+        got = c.has_liquid()
+        if (any(mc[s] > 1e-9 for s in liquids) and not got) or (not liquids and got):
+            self.report("C10", "has_liquid", key, f"{out.call}: {n} well {i + 1}: has_liquid() = {got!r}, contents hold liquids {sorted(liquids)}", ev, ctx["pre_key"])
+            return False
+        try:
+            df = c.dataframe()
+        except Exception as ex:
+            self.report("C10", "table_raises", dict(key, exc=type(ex).__name__), f"{out.call}: {n} well {i + 1}: dataframe() raised {type(ex).__name__}: {ex}", ev, ctx["pre_key"])
+            return False
+        names = [s_.name for s_ in c.contents]
+        rows = {}
+        if len(set(names)) == len(names):          # (two lots of one enzyme share a name and hence a row: only the totals are read)
+            rows = {s_.name: {inst.model_name(s_): 1.0} for s_ in c.contents}
+        rows["Total"] = {s: 1.0 for s in mc}
+        for label, members in rows.items():
+            if label not in df.index:
+                self.report("C10", "table_row_missing", key, f"{out.call}: {n} well {i + 1}: the table has no row {label!r}: {list(df.index)}", ev, ctx["pre_key"])
+                return False
+            for col, u in (("Volume", "L"), ("Mass", "g"), ("Moles", "mol"), ("U", "U")):
+                cell = df.loc[label, col]
+                e = sum(mc.get(s, 0.0) * float(per_unit(s, u)) for s in members if s in mc) * float(inst.base_scale(u))
+                if cell == "-":
+                    # '-' stands for "does not apply": moles of an enzyme, activity of anything else
+                    if label != "Total" and ((u == "mol") == model.is_enzyme(next(iter(members)))) and u in ("mol", "U"):
+                        continue
+                    if label != "Total" or e > 1e-12:
+                        self.report("C10", "table_cell", dict(key, column=col), f"{out.call}: {n} well {i + 1}: table[{label!r}, {col!r}] is '-', contents give {e!r} {u}", ev, ctx["pre_key"])
+                        return False
+                    continue
+                try:
+                    val, unit = str(cell).split()
+                    mult = self.PREFIX[unit[:len(unit) - len(u)]]
+                    if not unit.endswith(u):
+                        raise KeyError(unit)
+                    val = float(val)
+                except (ValueError, KeyError):
+                    self.report("C10", "table_cell", dict(key, column=col), f"{out.call}: {n} well {i + 1}: table[{label!r}, {col!r}] = {cell!r} is not '<value> <prefix>{u}'", ev, ctx["pre_key"])
+                    return False
+                pr = prec.get(unit, prec["default"])
+                if abs(val * mult - e) > (0.5 * 10 ** (-pr) * 1.0001) * mult + 1e-6 * abs(e) + 1e-15:
+                    self.report("C10", "table_cell", dict(key, column=col), f"{out.call}: {n} well {i + 1}: table[{label!r}, {col!r}] = {cell!r}, contents give {e!r} {u}", ev, ctx["pre_key"])
+                    return False
+        return True
+
+    def check_plate_dataframes(self, ctx, n, o, mcs, key):
+        """Plate.dataframe(unit, substance): the per-well table behind the notebook views (values before display formatting)."""
+        ev, out, inst, pp = ctx["ev"], ctx["out"], self.inst, self.pp
+        if self.have_styler is None:
+            try:
+                import jinja2  # noqa: F401  (pandas' Styler, which these views return, needs it; absent from this sandbox's /venv)
+                self.have_styler = True
+            except ImportError:
+                self.have_styler = False
+        if not self.have_styler:
+            return
+        nr, nc = o.wells.shape
+        present = sorted({s for mc in mcs for s in mc})
+        one = next((s for s in present if not model.is_enzyme(s)), None)
+        cases = [("uL", "all", lambda mc: sum(x * float(per_unit(s, "L")) for s, x in mc.items()) * float(inst.base_scale("L")) / 1e-6),
+                 ("mg", "all", lambda mc: sum(x * float(per_unit(s, "g")) for s, x in mc.items()) * float(inst.base_scale("g")) / 1e-3),
+                 ("U", "all", lambda mc: sum(x * float(per_unit(s, "U")) for s, x in mc.items()) * float(inst.base_scale("U")))]
+        if one:
+            cases.append(("mmol", one, lambda mc: mc.get(one, 0.0) * float(inst.base_scale("mol")) / 1e-3))
+            cases.append(("g", [one, "E"] if "E" in present else [one],
+                          lambda mc: sum(mc.get(s, 0.0) * float(per_unit(s, "g")) for s in {one, "E"} & set(present)) * float(inst.base_scale("g"))))
+        for unit, what, f in cases:
+            arg = what if what == "all" else inst.subs[what] if isinstance(what, str) else [inst.subs[s] for s in what]
+            try:
+                df = o.dataframe(unit=unit, substance=arg).data
+                got = [float(x) for x in df.to_numpy().flatten()]
+            except Exception as ex:
+                self.report("C10", "plate_dataframe_raises", dict(key, unit=unit, exc=type(ex).__name__),
+                            f"{out.call}: {n}.dataframe({unit!r}, {what!r}) raised {type(ex).__name__}: {ex}", ev, ctx["pre_key"])
+                return
+            exp = [f(mc) for mc in mcs]
+            if len(got) != len(exp) or any(abs(g - e) > 1e-6 * abs(e) + 1e-9 for g, e in zip(got, exp)):
+                self.report("C10", "plate_dataframe", dict(key, unit=unit, what="all" if what == "all" else "substance" if isinstance(what, str) else "list"),
+                            f"{out.call}: {n}.dataframe({unit!r}, {what!r}) = {got}, contents give {exp}", ev, ctx["pre_key"])
+                return
+            if [str(x) for x in df.index] != [str(x) for x in o.row_names] or [str(x) for x in df.columns] != [str(x) for x in o.column_names]:
+                self.report("C10", "plate_dataframe_labels", key, f"{out.call}: {n}.dataframe labels {list(df.index)} x {list(df.columns)}", ev, ctx["pre_key"])
                 return
 
     def check_plate_observers(self, ctx, n, o, mcs, key):
